@@ -196,7 +196,8 @@ def build_script(seed, size=1.0, micro=False):
         par.op("pairing_multi", V.lst([A1[i], A1[j]]), V.lst([A2[j], A2[i]]))
         if _ == 0:
             # a long list (implementations may split the work into blocks / worker threads)
-            par.op("pairing_multi", V.lst([A1[k_ % 4] for k_ in range(40)]), V.lst([A2[(k_ * 3 + k_ // 5) % 4] for k_ in range(40)]))
+            # (aperiodic choice of operands: a permutation of blocks must change the product)
+            par.op("pairing_multi", V.lst([A1[rng.randrange(4)] for k_ in range(40)]), V.lst([A2[rng.randrange(4)] for k_ in range(40)]))
         par.op("prepare2", A2[j])
     return pre.lines, par.lines
 
